@@ -40,7 +40,7 @@ ASSUMPTIONS = ["trusted base: CPython datetime/zoneinfo and the tz files",
 
 W_PROBES = ("start-1us", "start", "start+1us", "middle", "end-1us", "end")
 PATHS = ("create", "convert", "convert_pd", "tzdatetime", "set", "at", "on", "replace", "replace_fold", "parse", "local",
-         "instance_naive", "set_sub", "set_time")
+         "instance_naive", "set_sub", "set_time", "set_tz")
 ZONES = set()
 
 
@@ -351,6 +351,19 @@ def run(M, c):
             if base is None:
                 return
             ret = base.set(second=F[5], microsecond=F[6]) if path == "set_sub" else base.set(hour=F[3], minute=F[4], second=F[5], microsecond=F[6])
+        elif path == "set_tz":
+            # every field and another zone given at once: the fields are read in the requested zone only (an instance
+            # sitting in a zone where these very fields are skipped or repeated must not leave a trace)
+            eff_r = False
+            other = ("UTC", "Asia/Tokyo", "America/New_York", "Europe/Paris", "Australia/Lord_Howe")[(w // 7) % 5]
+            if not isinstance(zn, str) or other == zn:
+                return
+            base = DateTime(2001, 2, 3, 4, 5, 6, 7, tzinfo=tz, fold=f)
+            ret2 = base.set(*F, tz=other)
+            judge_result(M, "boundary", ("iana", other), w, f, False, ret=ret2, sigp="boundary-set_tz")
+            if type(ret2) is not DateTime or judge.zkind(ret2) != ("iana", other):
+                M.check("boundary", False, "C02/boundary-set_tz:type-or-zone", "result type/zone", got=judge.desc(ret2))
+            return
         elif path == "replace":
             eff_r = False
             base = DateTime(2001, 2, 3, 4, 5, 6, 7, tzinfo=tz, fold=f)
